@@ -430,7 +430,12 @@ class Sweeper:
         if env.psykal:
             trials = trials[:2]
         for attempts, fresh_parse, suffix in trials:
-            msg = C.check_chain(desc, attempts, fresh_parse=fresh_parse)
+            try:
+                msg = C.check_chain(desc, attempts, fresh_parse=fresh_parse)
+            except HarnessError:
+                # the setup steps / target indices found on the working copy
+                # do not carry over to a freshly built tree
+                msg = None
             if msg:
                 case = dict(desc, attempts=attempts, facts=facts)
                 if not fresh_parse:
@@ -450,7 +455,13 @@ class Sweeper:
                 if k in case}
         env = C.env_from(dict(desc, setup=[]))
         env.build()
-        self.resolve_setup(env, case["setup"])
+        try:
+            self.resolve_setup(env, case["setup"])
+        except C.SetupFailed:
+            self.ctx.label("setup:not_repeatable")
+            env.setup = []
+            if not env.psykal:
+                env.build()
         self.ctx.label(f"tree:{case['api']}:setup{len(env.setup)}")
         for plan in case["sweeps"]:
             try:
